@@ -8,7 +8,7 @@ GEN_FILE = "Router.lean"
 
 COLL = {"inner": "exact", "registries": "registries", "structs": "structs"}
 DECODERS = [(r"serde_json::from_slice\(", "serdeJson"), (r"beve_from_slice\(", "beve"),
-            (r"beve::read_typed_slice\(", "typedSlice"), (r"decode_typed_slice_ref_body::<T>\(", "typedSliceRef")]
+            (r"(?:beve::read_typed_slice|read_typed_slice_body)\(", "typedSlice"), (r"decode_typed_slice_ref_body::<T>\(", "typedSliceRef")]
 
 
 def body_format_codes(consts):
